@@ -19,7 +19,7 @@ Deviations from the letter of the standard, all invisible modulo whitespace/comm
   `≥` the length of the remaining input (`tokenise` starts it at the input length).
 -/
 namespace Verif.Spec.C09CssTok
-open Verif.Spec.CssValue (TT)
+open Verif.Spec.CssValue (TT Tok)
 
 /-! ## §4.2 definitions -/
 
@@ -304,6 +304,95 @@ def U (c : Char) : Bool :=
 def stopStr : List Char → Bool
   | c :: r => U c && (c != '!' || r.head? != some '-')
   | [] => false
+
+/-- token types that end where the next token starts (not closed by a quote or parenthesis of their own) -/
+def isPlain (tt : TT) : Bool :=
+  !(tt == .whitespace || tt == .comment || tt == .string || tt == .badString || tt == .url || tt == .badUrl || tt == .function)
+
+/-- a code point that is a delimiter token whatever follows it -/
+def loneDelim (c : Char) : Bool :=
+  !(isWs c || isQuote c || c == '#' || c == '(' || c == ')' || c == '+' || c == ',' || c == '-' || c == '.' ||
+    c == '/' || c == ':' || c == ';' || c == '<' || c == '@' || c == '[' || c == '\\' || c == ']' || c == '{' ||
+    c == '}' || isDigit c || isNameStart c)
+
+/-- the name of a function / url token starts with an identifier start code point, or with `-` and two more code points
+    (`-webkit-calc(`); names that start with an escape are not covered -/
+def nameHeadOk (p : List Char) : Bool := isNameStart (p.headD ' ') || (p.head? == some '-' && 3 ≤ p.length)
+
+/-- a url as the minifier writes it when it needs quotes: `url(` string `)`; the string lexeme, if so -/
+def quotedUrl (p : List Char) : Option (List Char) :=
+  if p.take 4 == ['u', 'r', 'l', '('] && p.getLast? == some ')' && 5 ≤ p.length then some ((p.drop 4).dropLast) else none
+
+/-- the tokens a url value stands for: one url token, or `url(` string `)` -/
+def urlToks (p : List Char) : List Token :=
+  match quotedUrl p with
+  | some s => [(.function, ['u', 'r', 'l', '(']), (.string, s), (.rightParen, [')'])]
+  | none => [(.url, p)]
+
+def urlOk (p : List Char) : Bool :=
+  match quotedUrl p with
+  | some s => lexOk .string s
+  | none => lexOk .url p && isNameStart (p.headD ' ')
+
+/-- lexemes that are read as themselves whatever follows -/
+def selfDelim (t : Tok) : Bool :=
+  t.tt == .function || t.tt == .url || t.tt == .string || t.tt == .comma || t.tt == .colon || t.tt == .semicolon ||
+  t.tt == .leftParen || t.tt == .rightParen || t.tt == .leftBracket || t.tt == .rightBracket ||
+  t.tt == .leftBrace || t.tt == .rightBrace ||
+  (t.tt == .delim && (t.data == ['/'] || loneDelim (t.data.headD ' ')))
+
+/-- the lexeme starts with a stop code point other than `!` -/
+def stopHead : List Char → Bool
+  | c :: _ => U c && c != '!'
+  | [] => false
+
+/-- may `u` be written directly behind `t` inside a function? -/
+def sepOk (t u : Tok) : Bool :=
+  selfDelim t || (t.tt == .whitespace && u.tt != .whitespace) || (isPlain t.tt && stopHead u.data)
+
+/-- the one-byte lexemes of the punctuation tokens (lexer contract) -/
+def punctOk (tt : TT) (data : List Char) : Bool :=
+  match tt with
+  | .comma => data == [',']
+  | .colon => data == [':']
+  | .semicolon => data == [';']
+  | .leftParen => data == ['(']
+  | .rightParen => data == [')']
+  | .leftBracket => data == ['[']
+  | .rightBracket => data == [']']
+  | .leftBrace => data == ['{']
+  | .rightBrace => data == ['}']
+  | .delim => data.length == 1
+  | _ => true
+
+mutual
+/-- one value or function argument: its lexeme is a token of its type (`lexOk`), commas and delimiters have their
+    one-byte lexeme, white space (only inside functions) is the parser's single space, and the arguments of a
+    function are fine themselves and pairwise safe to write back to back -/
+def tokOk : Tok → Bool
+  | .mk tt data args =>
+    if tt == .function then lexOk .function data && nameHeadOk data && argsOk args
+    else if tt == .url then urlOk data
+    else if tt == .string then lexOk .string data
+    else if tt == .whitespace then data == [' ']
+    else isPlain tt && lexOk tt data && punctOk tt data
+def argsOk : List Tok → Bool
+  | [] => true
+  | [t] => tokOk t
+  | t :: u :: r => tokOk t && sepOk t u && argsOk (u :: r)
+end
+
+mutual
+/-- the token stream a value stands for -/
+def flatTok : Tok → List Token
+  | .mk tt data args =>
+    if tt == .function then (.function, data) :: (flatArgs args ++ [(.rightParen, [')'])])
+    else if tt == .url then urlToks data
+    else [(tt, data)]
+def flatArgs : List Tok → List Token
+  | [] => []
+  | t :: r => flatTok t ++ flatArgs r
+end
 
 /-! ## values of string and url tokens -/
 
